@@ -402,6 +402,8 @@ func (s *Store[H]) wipe(ctx context.Context) (rerr error) {
 	//  Will be eventually fixed by
 	//  https://github.com/celestiaorg/go-header/issues/263
 	s.deinit()
+	// headers that are not flushed yet are wiped as well
+	s.pending.Reset()
 
 	if err := s.ds.Delete(ctx, headKey); err != nil {
 		rerr = errors.Join(rerr, fmt.Errorf("deleting headKey DB pointer: %w", err))
